@@ -10,6 +10,7 @@ import (
 	"path/filepath"
 	"strings"
 	"sync"
+	"syscall"
 	"time"
 )
 
@@ -52,6 +53,8 @@ func runSolverCtx(parent context.Context, sp solverSpec, file string, timeoutSec
 	ctx, cancel := context.WithTimeout(parent, time.Duration(timeoutSec+5)*time.Second)
 	defer cancel()
 	cmd := exec.CommandContext(ctx, args[0], args[1:]...)
+	// a solver must not outlive this process (a killed check would otherwise leave dozens of them running)
+	cmd.SysProcAttr = &syscall.SysProcAttr{Pdeathsig: syscall.SIGKILL}
 	var buf bytes.Buffer
 	cmd.Stdout = &buf
 	cmd.Stderr = &buf
